@@ -902,4 +902,10 @@ def run(ctx):
     # the data-file writer wraps the system before writing (image flags, bounds extended over non-periodic faces): "every atom lies within the written bounds" rests on
     # System.wrap, decided by the rule of the property that owns it
     from .c05 import wrap as system_wrap
-    ctx.run_rules([prop_tables, data_file, dump_file, tables, poscar, system_wrap])
+    from .. import lints
+
+    def fresh_tables(c):
+        # the column tables are lists of dicts that the writers (and the hybrid arm of the table builder itself) extend and edit in place: each call must build its own
+        for rel_, n_ in ((API, 1), (VPI, 1), (DPI, 2), (TPI, 1)):
+            lints.fresh_results(c, 'FRESH-TABLES', rel_, floor=n_, what='a column table')
+    ctx.run_rules([prop_tables, data_file, dump_file, tables, poscar, system_wrap, fresh_tables])
